@@ -93,6 +93,12 @@ def shapes():
     yield b'Content-Type: text/plain\r\nContent-Transfer-Encoding: quoted-printable\r\n\r\n=ZZ=\r\n'
     yield mp_(b'b', [leaf], sub=b'alternative', extra=b'Content-Disposition: inline; x="y"\r\nContent-Language: (en) de\r\n'
                                                        b'Content-Location: http://x/"q"\r\n')
+    # parameters whose decoded value is not ASCII (RFC 2231, RFC 2047, raw 8-bit), incl. the multipart boundary
+    for prm in (b"boundary*=utf-8''%E2%9C%93", b'boundary="=?utf-8?b?4pyT?="', b'boundary="\xe9"', b'boundary=\xe2\x9c\x93',
+                b"boundary*0*=utf-8''%E2; boundary*1*=%9C%93"):
+        yield b'Content-Type: multipart/mixed; ' + prm + b'\r\n\r\n--\xe2\x9c\x93\r\n\r\np\r\n--\xe2\x9c\x93--\r\n'
+    for prm in (b"name*=utf-8''%E2%9C%93", b'name="=?utf-8?b?4pyT?="', b"charset*=utf-8''%E2%9C%93", b'charset="\xe9"', b"name*=bogus'x'%ZZ"):
+        yield b'Content-Type: text/plain; ' + prm + b'\r\nContent-Disposition: attachment; file' + prm + b'\r\n\r\nx\r\n'
     yield b''
     yield b'\r\n'
     yield b'no header at all'
